@@ -127,14 +127,16 @@ static int print_i(void (*printchar_handler)(void *d, int c),
     prefix_len = (int)strlen(prefix);
     letter_base = ops & OPS_SPEC_UPPER_CASE ? 'A' : 'a';
 
-    do
-    {
-        ch = u % base;
-        if (ch >= 10)
-            ch += letter_base - 10 - '0';
-        *--str = ch + '0';
-        u /= base;
-    } while (u);
+    /* a zero value with an explicit zero precision has no digits */
+    if (u || min_len || !(ops & OPS_PREC_IS_GIVEN))
+        do
+        {
+            ch = u % base;
+            if (ch >= 10)
+                ch += letter_base - 10 - '0';
+            *--str = ch + '0';
+            u /= base;
+        } while (u);
 
     len = (int)(end - str);
     zero_count =
